@@ -275,6 +275,15 @@ func (ob *observer) leakScan(plain []byte, isString bool) bool {
 	if len(plain) < 6 || rePDFWords.Match(plain) {
 		return false
 	}
+	// runs of one byte value (sixteen zero bytes pad /U, ...) occur in any
+	// file: only plaintexts with some variety are searched for
+	distinct := map[byte]bool{}
+	for _, c := range plain {
+		distinct[c] = true
+	}
+	if len(distinct) < 5 {
+		return false
+	}
 	probe := plain
 	if len(probe) > 48 {
 		probe = probe[:48]
@@ -548,6 +557,7 @@ func observe(p *produced) (Record, error) {
 		seen[id] = true
 		if ob.leakScan(s.plain, s.isString) {
 			rec.Leaks = append(rec.Leaks, id)
+			rec.Note += fmt.Sprintf("plaintext %q found in the raw bytes; ", clip(string(s.plain)))
 		}
 	}
 	sort.Strings(rec.Leaks)
